@@ -3,13 +3,18 @@
    on which it has requests outstanding. Shared by XHop (model of the proxy hop: TLC checks that the
    intended design never makes a client find fault, and that the named defects do) and by XHopTrace
    (the same judgement applied to every frame real clients received from a running MOSN). *)
-(*    q: the client's record of the outstanding request the frame's id names on that connection. *)
-Explained(q) == q.short \/ q.unstable \/ q.closedSince
+(*    q: the client's record of the outstanding request the frame's id names on that connection:
+        tok   its unique token;  nil  the value of an absent token;
+        errs  tokens of the error answers (error status, token in header and body) the upstream produced for it. *)
+Explained(q) == q.short \/ q.unstable \/ q.closedSince \/ q.errs # {}
 Verdict(hasq, second, q, ok, htok, btok, produced) ==
   IF ~hasq THEN (IF second THEN {"second-reply-for-request"} ELSE {"reply-for-unknown-id"})
   ELSE (IF ok /\ htok # q.tok THEN {"foreign-response-header"} ELSE {}) \cup
        (IF ok /\ btok # q.tok THEN {"foreign-response-body"} ELSE {}) \cup
        (IF ok /\ htok = q.tok /\ btok = q.tok /\ ~produced THEN {"response-never-produced-upstream"} ELSE {}) \cup
-       (IF ~ok /\ ~Explained(q) THEN {"error-reply-for-healthy-request"} ELSE {})
+       (IF ~ok /\ ~Explained(q) THEN {"error-reply-for-healthy-request"} ELSE {}) \cup
+       \* an error reply is either the proxy's own (no part of any upstream answer) or one upstream error answer, whole
+       (IF ~ok /\ htok # btok THEN {"error-reply-header-and-body-from-different-exchanges"} ELSE {}) \cup
+       (IF ~ok /\ htok = btok /\ htok # q.nil /\ htok \notin q.errs THEN {"foreign-error-response"} ELSE {})
 
 ====
